@@ -14,6 +14,21 @@ Definition laneOk (x : Z) : bool := (0 <=? x) && (x <? M16).
 Definition add16 (a b : Z) : Z := (a + b) mod M16.
 Definition neg16 (a : Z) : Z := (- a) mod M16.
 
+(** vectorop.hpp, generic fallback of scaleClipPack, one lane:
+      out[i] = clamp(l1OutC(i) >> shift, clipLo, clipHi)
+    The S16 lane is given as its unsigned residue; it is promoted to int (sign extension), shifted
+    arithmetically, then clamp(val,min,max) = val < min ? min : (val > max ? max : val). *)
+Definition s16val (x : Z) : Z := if x <? 32768 then x else x - M16.
+Definition clampZ (v lo hi : Z) : Z := if v <? lo then lo else if hi <? v then hi else v.
+Definition clipLaneG (x : Z) : Z := clampZ (Z.shiftr (s16val x) l1Shift) clipLo clipHi.
+
+(** SPECIFICATION of scaleClipPack as a pure function of the accumulator value [s] (a signed
+    16-bit integer): divide by 2^shift rounding towards minus infinity, clip to the ReLU range
+    [0,127].  No bit operations, no reference to the loop. *)
+Definition scaleClipSpec (s : Z) : Z :=
+  if s <? 0 then 0 else if 128 * 2 ^ l1Shift <=? s then 127 else s / 2 ^ l1Shift.
+
+(** ... and the addSubWeights reference used by the unit-level kernel comparison *)
 Fixpoint map2 (f : Z -> Z -> Z) (a b : list Z) : list Z :=
   match a, b with
   | x :: r, y :: r' => f x y :: map2 f r r'
@@ -160,9 +175,11 @@ Section Inst.
     (ksq s, toAdd s, toSub s, lanes (l1Out s)).
 
   (** vectorop.hpp: scaleClipPack (generic branch) on one S16 lane given as unsigned residue *)
-  Definition clipLane (x : Z) : Z :=
-    let s := if x <? 32768 then x else x - M16 in
-    Z.max 0 (Z.min 127 (Z.shiftr s l1Shift)).
+  Definition clipLane (x : Z) : Z := clipLaneG x.
+
+  (** addSubWeights on raw lane lists (unit-level kernel comparison) *)
+  Definition addSub16 (a : list Z) (adds subs : list Z) : list Z :=
+    lanes (addSubWeights V16 vadd16 vneg16 w16 (mkV a) adds subs).
 
   (** NNEvaluator::computeL1Out: l1OutClipped = side to move's half, then the other half *)
   Definition l1OutClipped (wtm : bool) (st : state16) : list Z :=
